@@ -264,6 +264,7 @@ def pair(E, cfg):
     dp = (d1[0] * d2[0], _vadd(d1[1], d2[1], 1))
     E.check(same(E, denote(prod.items), dp), 'product', key='term:product', info=info)
     E.check(prod == t2 * t1, 'product-commutative', key='term:product-commutative', info=info)
+    deg = sum(abs(e) for sh in (s1, s2) for tok, e in sh if tok in ('x', 'y'))
     quot = t1 / t2
     _no_float(E, quot.items, 'quotient-no-float', info)
     dq = (d1[0] / d2[0], _vadd(d1[1], d2[1], -1))
@@ -273,7 +274,7 @@ def pair(E, cfg):
     E.check((t1 / t1) == Term(()) or same(E, denote((t1 / t1).items), (Fraction(1), {})), 'self-quotient-is-identity',
             key='term:self-quotient', info=info)
     _check_normal_form(E, prod, dp, info + ['product'])
-    if cfg.get('triples'):
+    if cfg.get('triples') and deg <= 4:
         s3 = cfg['third']
         t3 = Term(_items(E, s3, env))
         E.check((t1 * t2) * t3 == t1 * (t2 * t3), 'product-associative', key='term:product-associative', info=info + [repr(s3)])
@@ -355,7 +356,7 @@ def _rand_shape(rng, maxlen):
             tok = rng.choice(NUMS)
             # symbolic factors stay at degree <= 2 (higher powers give irrational roots in branch conditions:
             # minutes per query); concrete numbers may have any exponent
-            out.append((tok, rng.choice([1, -1, 2, -2, 1, -1] if tok in ('x', 'y') else [1, -1, 2, -2, 1, 3])))
+            out.append((tok, rng.choice([1, -1, 1, -1] if tok in ('x', 'y') else [1, -1, 2, -2, 1, 3])))
         else:
             out.append((rng.choice(SAFE_ELEMS), rng.choice([1, -1, 2, -2, 1, 3, -3, 0])))
     return out
@@ -376,7 +377,8 @@ def jobs(tier, seed):
               [[['km/h', 1]], [['f2/3', 1], ['m', 1], ['s', -1]]], [[['A', 1], ['B', 1]], [['B', 1], ['A', 1]]],
               [[['i2', -1]], [['d0.5', 1]]], [[['D', 1]], [['i3', 1], ['A', 1], ['B', -2]]], [[['x', 1], ['A', 1]], [['A', 1], ['y', 1]]]]
     for i, ch in enumerate(C.chunks(pairs, 16)):
-        out.append({'fn': 'pair', 'cfg': {'pairs': ch, 'triples': True, 'third': rng.choice(shapes)}})
+        lowdeg = [sh for sh in shapes if sum(abs(e) for tok, e in sh if tok in ('x', 'y')) <= 1 and sh]
+        out.append({'fn': 'pair', 'cfg': {'pairs': ch, 'triples': True, 'third': rng.choice(lowdeg)}})
     for ch in C.chunks(shapes[:48] if tier == 'quick' else shapes[:200], 8):
         out.append({'fn': 'scalars', 'cfg': {'shapes': ch}})
     out.append({'fn': 'same_key', 'cfg': {}})
